@@ -389,3 +389,46 @@ def r02_12(ctx, run, rule='R02.12'):
             run.violation(rule, p, f'table[{st.split("::")[-1]}]', 'the hex-digit table is wrong: ' + '; '.join(bad[:3]) + ' — \\\\uXXXX escapes containing that digit decode to a different code point', loc)
         else:
             run.proved(rule, p, f'table[{st.split("::")[-1]}]', f'22 hex digits map to their values, the other 234 bytes to the marker {sorted(markers)[0] if markers else "-"}', loc)
+
+
+def r02_13(ctx, run, rule='R02.13'):
+    """Inside a string every byte other than `"` and `\\` is content (RFC 8259 unescaped characters, plus the documented
+    relaxation that raw control characters are accepted): the scanning loop of parse_json_string may fail at end of input
+    or inside an escape, never because of the value of a plain byte."""
+    from rules import editing
+    from rules.buffers import is_err_return
+    f = ctx.facts
+    fn = "parser::Parser::<'a>::parse_json_string"
+    b = f.bodies.get(fn)
+    if b is None:
+        run.undecided(rule, fn, 'raw-bytes', 'function not found (anchor lost)')
+        return
+    paths, loops = editing.region_paths(b)
+    loc = f'{b.file}:{b.line}'
+    def scanned(t):
+        return any(s[0] == 'deref' and any(is_call(x, 'Parser::next') for x in subterms(s[1])) for s in subterms(t))
+    n = 0
+    bad = []
+    for q in paths:
+        if not q.blocks or q.blocks[0] not in loops:
+            continue
+        vc = [c for c in q.conds if c[0][0] != 'discr' and scanned(c[0])]
+        if not vc:
+            continue
+        n += 1
+        if q.end[0] != 'return' or not is_err_return(q):
+            continue
+        # an error propagated from the cursor itself (`self.next()?`, `self.must_is(..)?`) is the end-of-input error, whatever was read before
+        if is_call(q.ret, 'FromResidual::from_residual') and any(is_call(x, 'Parser::next', 'Parser::must_is') for x in subterms(q.ret)):
+            continue
+        c = vc[0]
+        if c[1] == 'eq' and c[2] in (ord('\\'), ord('"')) and c[0][0] == 'deref':
+            continue
+        bad.append(f'{show(c[0])[-60:]} {c[1]} {c[2]}')
+    if not n:
+        run.undecided(rule, fn, 'raw-bytes', 'the scanning loop does not read bytes through Parser::next in this function (restructured?): which bytes it rejects is not decided', loc)
+    elif bad:
+        run.violation(rule, fn, 'raw-bytes', f'the string scanner returns an error on a path selected by the value of a plain content byte ({bad[0]}): every byte other than `"` and `\\` '
+                      'is string content (RFC 8259 unescaped characters; raw control characters are a documented relaxation), so valid text is rejected', loc)
+    else:
+        run.proved(rule, fn, 'raw-bytes', f'{n} scanning path(s): an error is returned only at end of input, inside an escape, or after the closing quote', loc)
